@@ -290,6 +290,8 @@ type c16Layout struct {
 	Sibling   bool         `json:"plain_sibling"` // plain file providing a type/helper used by the generators
 	SubPkg    []*Program   `json:"sub_package"`   // programs of a sub-package with its own co file (may be empty)
 	Style     importStyle  `json:"style"`
+	Names     []string     `json:"co_file_base_names"` // base names of the co files (may contain the marker `_co` or dots inside)
+	TestName  string       `json:"co_test_file_base_name"`
 }
 
 func snapshot(dir string) map[string]string {
@@ -383,6 +385,9 @@ func (rs *runState) runC16Layout(idx int, lay c16Layout) *violationT {
 			return nil
 		}
 		name := fmt.Sprintf("f%d", i)
+		if i < len(lay.Names) && lay.Names[i] != "" {
+			name = lay.Names[i]
+		}
 		files[pkgDir+name+"_co.go"] = coHeader(src)
 		expected[pkgDir+name+".go"] = true
 		all = append(all, progs...)
@@ -398,8 +403,12 @@ func (rs *runState) runC16Layout(idx int, lay c16Layout) *violationT {
 		rs.infraProblem(err.Error())
 		return nil
 	}
-	files[pkgDir+"all_co_test.go"] = coHeader(tsrc)
-	expected[pkgDir+"all_test.go"] = true
+	tn := "all"
+	if lay.TestName != "" {
+		tn = lay.TestName
+	}
+	files[pkgDir+tn+"_co_test.go"] = coHeader(tsrc)
+	expected[pkgDir+tn+"_test.go"] = true
 	switch lay.Unused {
 	case "blank-import":
 		files[pkgDir+"unused_co.go"] = "//go:build co\n\npackage " + pkgName + "\n\nimport _ \"github.com/goghcrow/go-co\"\n\nfunc UnusedHelper() int { return 1 }\n"
@@ -457,13 +466,17 @@ func (rs *runState) runC16Layout(idx int, lay c16Layout) *violationT {
 		return nil
 	}
 	before := snapshot(base)
+	gofile := "f0_co.go"
+	if len(lay.Names) > 0 && lay.Names[0] != "" {
+		gofile = lay.Names[0] + "_co.go"
+	}
 	run := func() *cmdResult {
 		dirs := []string{filepath.Join(root, pkgDir)}
 		if subDir != "" {
 			dirs = append(dirs, filepath.Join(root, subDir))
 		}
 		for _, d := range dirs {
-			r := runCmd(d, 3*time.Minute, []string{"GOFILE=f0_co.go", "GOPACKAGE=" + pkgName}, rs.tools.cogen)
+			r := runCmd(d, 3*time.Minute, []string{"GOFILE=" + gofile, "GOPACKAGE=" + pkgName}, rs.tools.cogen)
 			if r.code != 0 {
 				return &r
 			}
@@ -583,9 +596,18 @@ func init() {
 			lay := c16Layout{Style: importStyles[rapidInt(t, 0, len(importStyles)-1, "style")]}
 			lay.AtRoot = !rs.excludeRoot() && rapidInt(t, 0, 4, "root") == 0
 			nf := rapidInt(t, 1, 3, "nfiles")
+			baseNames := []string{"", "", "pair_codec", "x_co", "conn_config_v2", "my.gen", "co", "a_co_b"}
 			for i := 0; i < nf; i++ {
 				lay.CoFiles = append(lay.CoFiles, mk(rapidInt(t, 1, 3, "nprog")))
+				nm := baseNames[rapidInt(t, 0, len(baseNames)-1, "basename")]
+				for _, prev := range lay.Names {
+					if prev == nm {
+						nm = ""
+					}
+				}
+				lay.Names = append(lay.Names, nm)
 			}
+			lay.TestName = []string{"", "", "pair_codec", "z_co_all"}[rapidInt(t, 0, 3, "testname")]
 			lay.TestFile = mk(1 + rapidInt(t, 0, 1, "testgen")) // the test file has generators of its own
 			lay.Unused = []string{"", "blank-import", "no-import"}[rapidInt(t, 0, 2, "unused")]
 			lay.Sibling = rapidInt(t, 0, 1, "sibling") == 1
